@@ -206,6 +206,27 @@ impl Node {
         Ok((n, format!("{start_res}{d}")))
     }
 
+    /// a server session on an existing scripted transport (the reader may already have been
+    /// partly consumed, as after `authenticate_client` in `handle_connection`)
+    pub async fn server_on(reader: ScriptReader, feed: Arc<Mutex<FeedState>>, scheme: &[u8]) -> Node {
+        let factory = PaddingFactory::new(scheme).unwrap();
+        let wire = Arc::new(Mutex::new(WireState::default()));
+        let writer = RecWriter(wire.clone());
+        let mut s = Session::new_server(reader, writer, Arc::new(factory));
+        let (tx, rx) = tokio::sync::mpsc::unbounded_channel();
+        s.set_stream_callback(tx);
+        let session = Arc::new(s);
+        let mut tasks = vec![];
+        let s1 = session.clone();
+        tasks.push(tokio::spawn(async move { let _ = s1.recv_loop().await; }));
+        let s2 = session.clone();
+        tasks.push(tokio::spawn(async move { let _ = s2.process_stream_data().await; }));
+        let mut n = Node { is_client: false, session, wire, feed, handles: vec![], cb_rx: Some(rx), delivered: vec![], seen_writes: 0, dec_buf: BytesMut::new(), tasks };
+        settle().await;
+        n.delta().await;
+        n
+    }
+
     /// new `write` calls since the last observation, decoded
     pub async fn delta(&mut self) -> String {
         // collect streams delivered to the callback
